@@ -271,6 +271,7 @@ static struct {
 } G;
 static long g_cases, g_shadow_mismatch, g_guard_bad;
 static int g_quiet, g_last_ret;
+static int g_ms_out[32], g_ms_n;   /* out_data_bytes of the per-stream calls of one multistream encode */
 
 static void emit_I(void)
 {
@@ -356,6 +357,7 @@ opus_int32 opus_encode_native(OpusEncoder *st, const opus_res *pcm, int frame_si
 {
    opus_int32 ret;
    memset(&R, 0, sizeof R); fr_init(&R.cur);
+   if (g_ms_n < 32) g_ms_out[g_ms_n++] = out_data_bytes;
    snap(st, G.pre, sizeof G.pre);
    G.st = st; G.pcm = pcm; G.frame_size = frame_size; G.out_bytes = out_data_bytes; G.pre_force_channels = st->force_channels;
    G.is_silence = 0;
@@ -603,6 +605,25 @@ static void run_bound(uint64_t seed, int level)
 }
 
 /* ------------------------------------------------------------------ multistream / projection */
+/* Tie of the per-stream budget split (opus_multistream_encoder.c:976-984): the `curr_max` each stream's opus_encode_native
+   call received, against the model's msCurrMax at the byte offset where that stream starts in the returned packet. */
+static void emit_mscurr(const unsigned char *pkt, int ret, int streams, int fs, int afs, int out, int vbr, int br, int nch)
+{
+   int s, off = 0;
+   if (ret < 1 || g_ms_n != streams) return;
+   if (!vbr && br == OPUS_AUTO) return;                       /* the clamp of :882 needs rate_sum, which is not visible here */
+   if (br > 0) br = IMIN(300000 * nch, IMAX(500 * nch, br));   /* opus_multistream_encoder_ctl(OPUS_SET_BITRATE) */
+   for (s = 0; s < streams; s++) {
+      printf("I encskel mscurr2 %d %d %d %d %d %d %d %d\nO v=%d\n", streams, fs, afs, vbr, br, out, off, s, g_ms_out[s]);
+      if (s < streams - 1) {
+         unsigned char toc; opus_int16 size[48]; opus_int32 po = 0;
+         int cnt = opus_packet_parse_impl(pkt + off, ret - off, 1, &toc, NULL, size, NULL, &po, NULL, NULL);
+         if (cnt < 1) return;
+         off += po;
+      }
+   }
+}
+
 static void run_ms(uint64_t seed, long sessions)
 {
    vrng r; long s; r.s = seed * 0xA24BAED4963EE407ULL + 11;
@@ -631,7 +652,9 @@ static void run_ms(uint64_t seed, long sessions)
          out = vchance(&r, 40) ? vrange(&r, 1, 8 * streams) : vchance(&r, 50) ? vrange(&r, 1, 400 * streams) : vrange(&r, 1, 4000);
          o = out_buf(out);
          gen_pcm(&r, kind, x, afs, ch, fs, &phase);
+         g_ms_n = 0;
          if (ms) err = opus_multistream_encode_float(ms, x, afs, o, out); else err = opus_projection_encode_float(pj, x, afs, o, out);
+         emit_mscurr(o, err, streams, fs, afs, out, cur_vbr, cur_br, ch);
          { int nb = err > 0 ? opus_packet_get_nb_samples(o, 1, fs) : 0;   /* first stream only; duration check is per stream below */
            printf("# MS fam=%d fs=%d ch=%d streams=%d coupled=%d afs=%d out=%d vbr=%d br=%d ret=%d\n", fam, fs, ch, streams, coupled, afs, out, cur_vbr, cur_br, err); (void)nb; }
          check_guard();
@@ -743,9 +766,10 @@ static void run_mssweep(uint64_t seed, int level)
       for (out = 1; out <= 600; out++) {
          unsigned char *o = out_buf(out); int ret;
          gen_pcm(&r, 2, x, afs, ch, fs, &phase);
-         g_quiet = 1;
+         g_quiet = 1; g_ms_n = 0;
          ret = ms ? opus_multistream_encode_float(ms, x, afs, o, out) : opus_projection_encode_float(pj, x, afs, o, out);
          g_quiet = 0;
+         emit_mscurr(o, ret, streams, fs, afs, out, vi, br, ch);
          printf("# MS fam=%d fs=%d ch=%d streams=%d coupled=%d afs=%d out=%d vbr=%d br=%d ret=%d\n", fam, fs, ch, streams, coupled, afs, out, vi, br, ret);
          check_guard();
       }
